@@ -27,6 +27,99 @@ CLAIMED = {
     ),
 }
 
+_TABLE_NOTE = ("trusted: TLC; the projection function of the harness (scan with _rowid/_rowaddr/version columns, deletion vectors, "
+               "manifest counters); concurrency is expressed as stale read versions + commit order with conflict_retries = 0; "
+               "keys are unique; tables have <= 4 keys, <= 3 fragments")
+_TABLE_TECH = "TLA+ table model (LanceTable.tla) checked by TLC; TLC-generated histories replayed on real datasets; TLC trace validation (Trace_LanceTable.tla)"
+
+
+def _table(text, ref):
+    return dict(category="model_checking", text=text, design_ref=ref, note=_TABLE_NOTE, technique=_TABLE_TECH)
+
+
+CLAIMED.update({
+    "C03": _table("TLC checks SerialEquivalence (latest contents = serial replay of the committed transactions' effects computed at their "
+                  "read versions) on the design model with lance's conflict rules and row-level rebase transcribed, for all histories of "
+                  "2 (quick) / 3 (thorough) operations by two writers over append, delete, update, upsert, compact, overwrite, restore with "
+                  "every read-version assignment; one history per distinct reachable state is replayed on a real dataset through stale "
+                  "handles and every step is judged by TLC: a failed operation leaves the projected latest version unchanged, a "
+                  "committed one yields exactly the serial-replay table.", "DESIGN.md 3.4, 5 (C03)"),
+    "C04": _table("NoLostUpdate (a committed delete/update/upsert whose selected keys were touched by a version between its read version "
+                  "and its commit is a violation) and NoDoubleImage are evaluated by TLC on every step of TLC-generated histories of "
+                  "delete / update / upsert / compact by two writers with stale handles, replayed on real datasets (stable row ids on and off); "
+                  "the design model with the transcribed rebase logic is model-checked for the same invariants.", "DESIGN.md 3.4, 5 (C04)"),
+    "C05": _table("WellFormed (fragment ids ordered and <= max_fragment_id, deletion vectors within physical rows, live rows = physical - "
+                  "deleted, unique field ids, row ids below next_row_id, index fields in the schema, latest version opens and scans) is "
+                  "evaluated by TLC on the projection recorded after every step of every generated history over the full operation alphabet.",
+                  "DESIGN.md 3.4, 5 (C05)"),
+    "C06": _table("VersionsImmutable: every version observed during a history (after restore, overwrite, compaction, rebased deletes ...) is "
+                  "re-read through a fresh open at the end of the history and TLC compares the full projection (schema, rows and order, "
+                  "deletions, config, index list, counters) with the one recorded when the version was created; the design model checks the "
+                  "action property on all transitions.", "DESIGN.md 3.4, 5 (C06)"),
+    "C07": _table("RestoreEqualsOld (fragments of the restored latest = fragments of the old version) and RowIdsNeverReused (no row id handed "
+                  "out by a step was ever seen in an earlier version of the history; ghost set `issued`) evaluated by TLC on histories "
+                  "restore;append|upsert|update|delete... of length 3 (quick) / 4 (thorough).", "DESIGN.md 3.4, 5 (C07)"),
+    "C13": _table("RewritePreservesContents: across a compaction the multiset of (key, value, stable row id, created-at, last-updated) is "
+                  "unchanged, and compaction commits at most the fragment reservation plus one rewrite version; evaluated by TLC on "
+                  "generated histories mixing compaction (also planned on a stale handle) with delete/update/upsert/append.",
+                  "DESIGN.md 3.4, 5 (C13)"),
+    "C17": _table("VersionColumnsCorrect: the model keeps, per key, the version of creation and of the last update as the property defines "
+                  "them (ghost `truth`, independent of lance's version sequences) and TLC compares them with _row_created_at_version / "
+                  "_row_last_updated_at_version of every live row after every step (append, update, upsert, delete, compact, restore; "
+                  "multi-fragment tables).", "DESIGN.md 3.4, 5 (C17)"),
+    "C18": _table("RowIdStable (a key keeps its stable row id across update, upsert and compaction), RowIdUnique and row ids below "
+                  "next_row_id, evaluated by TLC after every step of the lineage histories with stable row ids.", "DESIGN.md 3.4, 5 (C18)"),
+})
+
+_QUERY_NOTE = ("trusted: TLC; values are small int32 and NULL (no floats/strings/temporal); predicates are the Sql3VL grammar of depth <= 2 "
+               "over one nullable column; the table has 6-8 rows in 2-3 fragments")
+CLAIMED.update({
+    "C12": dict(category="model_checking",
+                text="TLC checks the laws of the reference semantics (TableQuery.tla over Sql3VL.tla: TRUE/FALSE/UNKNOWN partition, NOT "
+                     "swaps TRUE and FALSE only, DELETE removes exactly TRUE rows, UPDATE keeps the row count) and prints every statement "
+                     "(delete / update x 3 expressions for every predicate; merge_insert over 4 sources x 12 option settings); each is "
+                     "executed on an unindexed, btree- and bitmap-indexed real table and TLC compares the rows removed / re-inserted and "
+                     "their values with Effect() of the reference semantics.",
+                design_ref="DESIGN.md 5 (C12)", note=_QUERY_NOTE + "; NULL keys and duplicate source keys are not generated",
+                technique="TLA+ three-valued SQL semantics + TLC; statement replay; TLC trace validation"),
+    "C16": dict(category="model_checking",
+                text="Every predicate printed by TLC is scanned under 11 execution-knob assignments (batch size, strict batch size, "
+                     "readahead, ordered/unordered, early/late materialisation, stats, scalar index use, row id / address columns) plus "
+                     "ORDER BY / LIMIT / OFFSET variants; TLC judges each variant's rows, order keys, limits and count_rows(filter) "
+                     "against Sql3VL!Eval on the observed table, which implies knob independence.",
+                design_ref="DESIGN.md 5 (C16)", note=_QUERY_NOTE,
+                technique="TLA+ three-valued SQL semantics + TLC; query replay with knob variants; TLC trace validation"),
+    "C19": dict(category="model_checking",
+                text="The same predicates are scanned with and without scalar index use on btree- and bitmap-indexed tables in six index "
+                     "states (fresh, rows appended after indexing, deleted, updated, compacted/remapped, optimized); TLC judges the indexed "
+                     "rows and count against Sql3VL!Eval. The index-negation-over-NULL defect is a known finding matched by its class.",
+                design_ref="DESIGN.md 5 (C19)", note=_QUERY_NOTE + "; label-list indices are not covered",
+                technique="TLA+ three-valued SQL semantics + TLC; indexed/unindexed query replay; TLC trace validation"),
+    "C31": dict(category="model_checking",
+                text="TLC model-checks ObjectWriter.tla (the writer's poll_write/poll_shutdown/poll_tasks state machine against a multipart "
+                     "store with gated part uploads and scripted faults on put_multipart / put_part (failure, connection reset) / complete / put, "
+                     "call-order and strict part accounting) for NothingVisibleBeforeDone, DoneEqualsConcat, FailLeavesNothing, AbortLeavesNothing "
+                     "and PendingCanProgress; TLC-generated scenarios (one per distinct closed state, seeded stratified subset) are replayed on the real "
+                     "ObjectWriter over a mock object_store, and every recorded step (store calls with payload segments, API result, destination listing) "
+                     "is explained by the model and judged by the invariants in Trace_ObjectWriter.tla.",
+                design_ref="DESIGN.md 3.8, 5 (C31)",
+                note="trusted: tokio JoinSet/Vec capacity, the mock store semantics (no lost responses), 5 MiB parts only; retry scenarios are few "
+                     "because each costs 2-8 s of real sleep; after an error only abort/drop follow",
+                technique="TLA+ state machine + TLC; scenario replay with hand-polled futures; TLC trace validation with named deviation RetryAppendsPart"),
+    "C41": dict(category="model_checking",
+                text="TLC model-checks Spill.tla: the replay-spill protocol (sender Buffering->Spilling->Finished|Errored with write() split at its await "
+                     "points, published WriteStatus, readers opened at any time switching from the in-memory snapshot to the file with skip) for "
+                     "EveryReaderSeesAllInOrder, PublishedOnDisk and ReadsNeverFail, and the Chunk law for TLA+ transcriptions of BatchReaderChunker and "
+                     "StrictBatchSizeStream over the complete input universe. TLC-generated schedules (memory limit 0 / 1 / 2.5 batches / none, 2-3 readers "
+                     "opened before/during/after writing, blocked readers resumed) are replayed on the real create_replay_spill on a current-thread runtime "
+                     "with wake-driven polling, and the real chunk_stream / chunk_concat_stream / StrictBatchSizeStream are run on the whole universe; every "
+                     "recorded step / call is judged by TLC in Trace_Spill.tla.",
+                design_ref="DESIGN.md 3.8, 5 (C41)",
+                note="trusted: arrow IPC stream reader/writer, tokio watch and blocking pool; equal-sized batches; no I/O faults; reader/writer "
+                     "interleaving inside write() is checked on the model only",
+                technique="TLA+ state machine + operator laws, TLC; schedule replay without wall-clock time-outs; TLC trace validation"),
+})
+
 PENDING_REASON = "not yet bound to the implementation by a registered check in this snapshot (see DESIGN.md status table)"
 
 ALL = ["C%02d" % i for i in range(1, 44)]
